@@ -211,6 +211,38 @@ fn scenario(id: u64, seed: u64, scratch: &Path, out: &mut dyn Write) -> anyhow::
             log(out, json!({"ev":"close","who":format!("G{round}"),"unlockSeen": true, "lateIo": 0, "ending": 0}))?;
         }
     }
+    // H: a forked child (fork without exec) inherits every descriptor of the process, the lock file's too: the
+    // handle's drop must release the directory itself, not leave it to the last descriptor being closed
+    {
+        let h = try_open(&dir);
+        log(out, json!({"ev":"open","who":"H","how":"thread","res": if h.is_ok() {"Ok"} else {"Err"}, "unchanged": true,
+                        "err": h.as_ref().err().cloned().unwrap_or_default()}))?;
+        if let Ok(h) = h {
+            out.flush()?;
+            let pid = unsafe { libc::fork() };
+            if pid == 0 {
+                // child: async-signal-safe calls only
+                let ts = libc::timespec { tv_sec: 0, tv_nsec: 400_000_000 };
+                unsafe {
+                    libc::nanosleep(&ts, std::ptr::null_mut());
+                    libc::_exit(0);
+                }
+            }
+            drop(h);
+            log(out, json!({"ev":"close","who":"H","unlockSeen": true, "lateIo": 0, "ending": 0}))?;
+            let again = try_open(&dir);
+            log(out, json!({"ev":"open","who":"H2","how":"thread","res": if again.is_ok() {"Ok"} else {"Err"}, "unchanged": true,
+                            "err": again.as_ref().err().cloned().unwrap_or_default(), "forkedChildAlive": pid > 0}))?;
+            if again.is_ok() {
+                drop(again);
+                log(out, json!({"ev":"close","who":"H2","unlockSeen": true, "lateIo": 0, "ending": 0}))?;
+            }
+            if pid > 0 {
+                let mut status = 0i32;
+                unsafe { libc::waitpid(pid, &mut status, 0) };
+            }
+        }
+    }
     let _ = std::fs::remove_dir_all(&dir);
     Ok(())
 }
